@@ -35,6 +35,10 @@ struct Walk {
     /// every name bound anywhere in the program
     binders: BTreeSet<String>,
     scope: Vec<String>,
+    /// binding occurrences (pattern variables, parameters): span, name, the type stored for it
+    binds: Vec<(Span<BytePos>, String, String)>,
+    /// for every binder the regions of the source in which it is visible
+    regions: Vec<(String, Span<BytePos>)>,
 }
 
 impl Walk {
@@ -43,6 +47,7 @@ impl Walk {
             Pattern::Ident(id) => {
                 let n = id.name.declared_name().to_string();
                 self.binders.insert(n.clone());
+                self.binds.push((p.span, n.clone(), id.typ.to_string()));
                 out.push(n);
             }
             Pattern::As(n, inner) => {
@@ -78,6 +83,11 @@ impl Walk {
             Pattern::Literal(_) | Pattern::Error => {}
         }
     }
+    fn region(&mut self, names: &[String], span: Span<BytePos>) {
+        for n in names {
+            self.regions.push((n.clone(), span));
+        }
+    }
     fn with<R>(&mut self, names: Vec<String>, f: impl FnOnce(&mut Self) -> R) -> R {
         let n = names.len();
         self.scope.extend(names);
@@ -103,9 +113,11 @@ impl Walk {
             }
             Expr::Lambda(l) => {
                 let names: Vec<String> = l.args.iter().map(|a| a.name.value.name.declared_name().to_string()).collect();
-                for n in &names {
+                for (n, a) in names.iter().zip(l.args.iter()) {
                     self.binders.insert(n.clone());
+                    self.binds.push((a.name.span, n.clone(), a.name.value.typ.to_string()));
                 }
+                self.region(&names, l.body.span);
                 self.with(names, |s| s.expr(l.body));
             }
             Expr::IfElse(a, b, c) => {
@@ -118,6 +130,7 @@ impl Walk {
                 for alt in alts.iter() {
                     let mut names = vec![];
                     self.bind_pat(&alt.pattern, &mut names);
+                    self.region(&names, alt.expr.span);
                     self.with(names, |w| w.expr(&alt.expr));
                 }
             }
@@ -151,14 +164,17 @@ impl Walk {
                     let mut names = vec![];
                     self.bind_pat(&b.name, &mut names);
                     let params: Vec<String> = b.args.iter().map(|a| a.name.value.name.declared_name().to_string()).collect();
-                    for n in &params {
+                    for (n, a) in params.iter().zip(b.args.iter()) {
                         self.binders.insert(n.clone());
+                        self.binds.push((a.name.span, n.clone(), a.name.value.typ.to_string()));
                     }
                     // a binding with parameters may refer to itself
                     let mut inner = params.clone();
                     if !params.is_empty() {
                         inner.extend(names.iter().cloned());
                     }
+                    self.region(&inner, b.expr.span);
+                    self.region(&names, body.span);
                     self.with(inner, |w| w.expr(&b.expr));
                     self.with(names, |w| w.expr(body));
                 }
@@ -167,13 +183,20 @@ impl Walk {
                     for b in bs.iter() {
                         self.bind_pat(&b.name, &mut names);
                     }
+                    // the names of a group are in scope from its first binding to the end of the body
+                    // (the `let` keywords between the bindings included)
+                    if let Some(first) = bs.iter().next() {
+                        self.region(&names, Span::new(first.name.span.start(), body.span.end()));
+                    }
                     self.with(names, |w| {
                         for b in bs.iter() {
                             let params: Vec<String> =
                                 b.args.iter().map(|a| a.name.value.name.declared_name().to_string()).collect();
-                            for n in &params {
+                            for (n, a) in params.iter().zip(b.args.iter()) {
                                 w.binders.insert(n.clone());
+                                w.binds.push((a.name.span, n.clone(), a.name.value.typ.to_string()));
                             }
+                            w.region(&params, b.expr.span);
                             w.with(params, |w2| w2.expr(&b.expr));
                         }
                         w.expr(body);
@@ -192,6 +215,7 @@ impl Walk {
                 if let Some(p) = &d.id {
                     self.bind_pat(p, &mut names);
                 }
+                self.region(&names, d.body.span);
                 self.with(names, |w| w.expr(d.body));
             }
             // the call of a macro is not typed by the checker (its expansion is)
@@ -314,7 +338,7 @@ fn run_queries(vm: &gluon::Thread, name: &str, src: &str, check_agreement: bool,
         let _ = completion::all_symbols(source_span, expr);
     });
     if check_agreement && well_typed {
-        let mut w = Walk { occs: vec![], binders: BTreeSet::new(), scope: vec![] };
+        let mut w = Walk { occs: vec![], binders: BTreeSet::new(), scope: vec![], binds: vec![], regions: vec![] };
         w.expr(expr);
         for o in &w.occs {
             let (a, b) = (o.span.start().to_usize(), o.span.end().to_usize());
@@ -372,8 +396,116 @@ fn run_queries(vm: &gluon::Thread, name: &str, src: &str, check_agreement: bool,
                 }
             }
         }
+        // binding occurrences: pattern variables and parameters
+        for (span, name, typ) in &w.binds {
+            let (a, b) = (span.start().to_usize(), span.end().to_usize());
+            if a < base || b > base + src.len() || a >= b || src.get(a - base..b - base) != Some(name.as_str()) {
+                continue;
+            }
+            rep.ident_positions += 1;
+            for p in [a, (a + b) / 2, b - 1] {
+                rep.nodes_checked += 1;
+                match completion::find(&env, source_span, expr, BytePos::from(p as u32)) {
+                    Ok(gluon::either::Either::Right(t)) if t.to_string() == *typ => {}
+                    other => {
+                        if rep.disagreements.len() < 5 {
+                            let got = match other {
+                                Ok(gluon::either::Either::Right(t)) => format!("type `{}`", t.to_string().replace('\n', " ")),
+                                Ok(gluon::either::Either::Left(k)) => format!("a kind `{}`", k),
+                                Err(()) => "nothing".to_string(),
+                            };
+                            rep.disagreements.push(format!(
+                                "find at offset {} (binding occurrence of `{}`) reports {} but the checker stored `{}`",
+                                p - base,
+                                name,
+                                got,
+                                typ.replace('\n', " ")
+                            ));
+                        }
+                    }
+                }
+            }
+        }
+        // suggestions at the first byte of every keyword that starts an expression (`let`, `rec`,
+        // `match`, `if`): a name bound by the program may only be suggested inside one of the
+        // regions in which a binder of that name is visible.  (Positions on punctuation between
+        // a pattern and its body are left out: what is in scope "at the arrow" is debatable.)
+        for (off, word) in expression_keywords(src) {
+            let p = base + off;
+            let q = completion::SuggestionQuery { prefix_filter: false, ..Default::default() };
+            rep.nodes_checked += 1;
+            for s in q.suggest(&env, source_span, expr, BytePos::from(p as u32)) {
+                if !w.binders.contains(&s.name) {
+                    continue;
+                }
+                let visible = w.regions.iter().any(|(n, r)| *n == s.name && r.start().to_usize() <= p && p <= r.end().to_usize());
+                if !visible && rep.disagreements.len() < 5 {
+                    rep.disagreements.push(format!(
+                        "at offset {} (keyword `{}`) the name `{}` is suggested but no binding of it is in scope there",
+                        off, word, s.name
+                    ));
+                }
+            }
+        }
     }
     None
+}
+
+/// (offset, word) of the keywords `let`, `rec`, `match`, `if` outside comments and literals
+fn expression_keywords(src: &str) -> Vec<(usize, &'static str)> {
+    let b = src.as_bytes();
+    let mut out = vec![];
+    let mut i = 0;
+    while i < b.len() {
+        match b[i] {
+            b'/' if i + 1 < b.len() && b[i + 1] == b'/' => {
+                while i < b.len() && b[i] != b'\n' {
+                    i += 1;
+                }
+            }
+            b'/' if i + 1 < b.len() && b[i + 1] == b'*' => {
+                i += 2;
+                while i + 1 < b.len() && !(b[i] == b'*' && b[i + 1] == b'/') {
+                    i += 1;
+                }
+                i += 2;
+            }
+            b'"' => {
+                i += 1;
+                while i < b.len() && b[i] != b'"' {
+                    if b[i] == b'\\' {
+                        i += 1;
+                    }
+                    i += 1;
+                }
+                i += 1;
+            }
+            b'\'' => {
+                // a character literal (identifiers with a prime are consumed as words below)
+                i += 1;
+                while i < b.len() && b[i] != b'\'' {
+                    if b[i] == b'\\' {
+                        i += 1;
+                    }
+                    i += 1;
+                }
+                i += 1;
+            }
+            c if c.is_ascii_alphabetic() || c == b'_' => {
+                let st = i;
+                while i < b.len() && (b[i].is_ascii_alphanumeric() || b[i] == b'_' || b[i] == b'\'') {
+                    i += 1;
+                }
+                for w in ["let", "rec", "match", "if"] {
+                    if &src[st..i] == w {
+                        out.push((st, w));
+                    }
+                }
+            }
+            _ => i += 1,
+        }
+    }
+    out
 }
 
 impl Property for C20 {
@@ -394,7 +526,9 @@ impl Property for C20 {
         let style = style_from(t);
         let cfg = GenCfg { max_size: tier.pick(25, 45), hash_only: true, ..GenCfg::default() };
         let prog = gen_program(t, cfg);
-        let src = print_program(&prog, style, NO_PRELUDE_HEADER);
+        // a unit pattern in front now and then (a tuple pattern without elements)
+        let header = if t.chance(1, 6) { format!("{}let () = ()\n", NO_PRELUDE_HEADER) } else { NO_PRELUDE_HEADER.to_string() };
+        let src = print_program(&prog, style, &header);
         // variants: truncations and deletions are chosen by the tape as well (a sample of the
         // token boundaries; the thorough tier takes more)
         let starts = token_starts(&src);
@@ -503,7 +637,7 @@ impl Property for C20 {
         j
     }
     fn rule(&self) -> String {
-        "generated programs (implicit prelude off) in complete form plus 6 (quick) / 16 (thorough) variants truncated at / with one token deleted at tape-chosen token boundaries; on the (possibly salvaged) typechecked tree every byte offset 0..=len+1 (including offsets inside multi-byte characters) is queried with find, find_all_symbols, symbol, suggest, SuggestionQuery{prefix_filter:false}, signature_help, get_metadata, suggest_metadata, and all_symbols once: no panic. On complete well-typed programs, at the first, middle and last byte of every identifier occurrence `find` must report exactly the type the checker stored for that occurrence, and at the end of the identifier no name bound by the program may be suggested unless it is lexically visible there (scoping recomputed by the harness). Non-trivial = program with at least one checked identifier occurrence; distinct by source hash".into()
+        "generated programs (implicit prelude off) in complete form plus 6 (quick) / 16 (thorough) variants truncated at / with one token deleted at tape-chosen token boundaries; on the (possibly salvaged) typechecked tree every byte offset 0..=len+1 (including offsets inside multi-byte characters) is queried with find, find_all_symbols, symbol, suggest, SuggestionQuery{prefix_filter:false}, signature_help, get_metadata, suggest_metadata, and all_symbols once: no panic. On complete well-typed programs, at the first, middle and last byte of every identifier occurrence and of every binding occurrence (pattern variables, function and lambda parameters) `find` must report exactly the type the checker stored for it; at the end of an identifier occurrence and at the first byte of every `let` / `rec` / `match` / `if` keyword no name bound by the program may be suggested unless a binding of it is lexically visible there (scoping recomputed by the harness). Non-trivial = program with at least one checked identifier occurrence; distinct by source hash".into()
     }
     fn assumptions(&self) -> Vec<String> {
         vec![
